@@ -258,6 +258,12 @@ MUTANTS = [
         "read error after the FASTA header is swallowed: an empty record list is returned as if complete",
     ),
     (
+        "c11_fasta_record_name_reverted", "C11", G + "io/gff3/writer.py",
+        "            fasta_lines[0] = f\">{collection.sequence_name}\"\n",
+        "",
+        "reverts fix dd01f15: FASTA record of a chunk-relative export named after the chunk sequence's own id",
+    ),
+    (
         "c10_liftover_memo_keyed_by_id", "C10", G + "location/location.py",
         "        try:\n            self.first_ancestor_of_type(sequence_type)\n        except NoSuchAncestorException:\n            raise NoSuchAncestorException(\"Location has no ancestor of type {}\".format(sequence_type))\n        if self.parent_type == sequence_type:\n            return self\n        lifted_to_grandparent = self.parent.lift_child_location_to_parent()\n        return lifted_to_grandparent.lift_over_to_first_ancestor_of_type(sequence_type)\n",
         "        key = (id(self), str(sequence_type))\n        if key in _LIFT_MEMO:\n            return _LIFT_MEMO[key]\n        try:\n            self.first_ancestor_of_type(sequence_type)\n        except NoSuchAncestorException:\n            raise NoSuchAncestorException(\"Location has no ancestor of type {}\".format(sequence_type))\n        if self.parent_type == sequence_type:\n            return self\n        lifted_to_grandparent = self.parent.lift_child_location_to_parent()\n        res = lifted_to_grandparent.lift_over_to_first_ancestor_of_type(sequence_type)\n        if len(_LIFT_MEMO) < 4096:\n            _LIFT_MEMO[key] = res\n        return res\n",
